@@ -28,10 +28,11 @@ PROP = Prop(
                  "of 2 GiB or more is outside the model)",
                  "no concurrent failAllRecords / bumpRepeatedLoadErr while a request is serialised (the null-records arm of AppendTo is not modelled)",
                  "the sink's known produce version is either unknown (-1) or the version the request is written at"],
-    partial="decode(encode) round trip proved for Produce v3-v13 without compressor (Spec.C18.requests accepts the written frame and returns the "
-            "buffered records, deltas, attributes, producer id/epoch/sequence); with a compressor and for message sets (v0-v2) the round trip is "
-            "checked only differentially by the same reference decoder on every case; request bound proved for v0-v8, proved false for v9-v13 "
-            "with the exact excess; batch bound proved for record batches, observed false for message sets",
+    partial="decode(encode) round trip proved for Produce v3-v13 without compressor; with a compressor and for message sets (v0-v2) it is checked "
+            "only differentially by the same reference decoder. Request bound proved for every version 0-13 when the sink knows the version; while "
+            "the version is unknown it is proved for flexible written versions only for batches below 2 MiB, topic names below 32 KiB and fewer than "
+            "16383 topics (false beyond: real code writes accounted+1 for 2 topics x 127 partitions x 2 MiB batches). Batch bound proved for record "
+            "batches and for message sets buffered at the written (or an unknown) version.",
     run_timeout={"quick": 900, "thorough": 3000},
 )
 MANIFEST = {
@@ -39,16 +40,15 @@ MANIFEST = {
             "building (createReq/tryAddBatch) and serialisers (AppendTo/appendTo/appendToAsMessageSet/appendMessageTo/AppendRequest): for all record "
             "sets, configurations and compressors the accounted batch length is exactly what is written (<= when compressed), every record batch "
             "stays below the configured maximum, a record is rejected only when it does not fit an empty batch, createReq's running wireLength equals "
-            "a closed form and is at most BrokerMaxWriteBytes, a written request is within BrokerMaxWriteBytes for Produce v0-v8, and (v3-v13, no "
+            "a closed form and is at most BrokerMaxWriteBytes, a written request is within BrokerMaxWriteBytes for every produce version 0-13 (version "
+            "known to the sink; with side conditions while it is unknown), message sets stay below the configured batch maximum, and (v3-v13, no "
             "compressor) the independent strict reference decoder reads back from the written frame exactly the buffered records in order with "
-            "consistent lengths, CRC span, deltas, attributes and producer id/epoch/sequence (decode . encode theorem). For Produce "
-            "v9-v13 the bound is proved false (kernel-checked counterexample: 1025 bytes written under a 1024 limit) and replaced by the exact excess "
-            "topics+partitions-2 (+ compact topic count growth). The model is tied to the code by byte-exact differential runs of the real batching and "
+            "consistent lengths, CRC span, deltas, attributes and producer id/epoch/sequence (decode . encode theorem). The model is tied to the code by byte-exact differential runs of the real batching and "
             "serialisation path on every produce version, and every written request is decoded by an independent strict reference decoder (Spec) that "
             "checks records, order, lengths, CRC span, deltas, attributes, producer id/epoch/sequence and both size limits.",
     "note": "Trusted: Lean kernel; the hand-written model (validated differentially, byte for byte); the reference decoder; CRCs and codecs as parameters. "
-            "Not proved in Lean: the decode(encode) round trip with a compressor and for message sets (differential only). Known findings: flexible produce "
-            "requests exceed BrokerMaxWriteBytes; message sets (Produce v0-v2) can exceed ProducerBatchMaxBytes.",
+            "Not proved in Lean: the decode(encode) round trip with a compressor and for message sets (differential only). Both defects the check found (flexible requests over BrokerMaxWriteBytes, "
+            "message sets over ProducerBatchMaxBytes) are repaired in /repo (e8757ce, c322dee) and kept as regression cases.",
     "technique": "Lean 4 proof (accounting invariants by induction over buffering and request building, exact length lemmas) with differential "
                  "correspondence and an executable reference-decoder Spec evaluated on the implementation's bytes",
 }
